@@ -2,10 +2,10 @@ package main
 
 import (
 	"fmt"
-	"os"
 	"go/constant"
 	"go/token"
 	"go/types"
+	"os"
 	"sort"
 	"strconv"
 
